@@ -197,8 +197,15 @@ def load_known():
     return json.load(open(p))
 
 
+RUN_INFO = {}
+
+
 def write_replay(prop, payload):
     os.makedirs(os.path.join(VERIF, 'replay'), exist_ok=True)
+    payload = dict(payload)
+    payload.setdefault('property', prop)
+    for k, v in RUN_INFO.items():
+        payload.setdefault(k, v)
     blob = json.dumps(payload, sort_keys=True, indent=1, default=str)
     h = hashlib.sha256(blob.encode()).hexdigest()[:12]
     path = os.path.join(VERIF, 'replay', '%s-%s.json' % (prop, h))
